@@ -487,6 +487,13 @@ theorem rewards_collect_le (bd : Nat) (raws : List Nat) : collect bd raws ≤ bd
 /-- the net amount created by `DistributeDepthRewards` never exceeds the block distribution -/
 theorem rewards_distribute_le (bd : Nat) (e : Env) : distribute bd e ≤ bd := distribute_le bd e
 
+/-- every rewarded coin ends up in a provider's account or in a pool (model): the net amount created
+    is what was paid plus what was credited, and the module account keeps the credited part -/
+theorem rewards_accounted_model (mode : Bool) (bd : Nat) (e : Env) :
+    rewardsAccountedOK (distribute bd e) (paidOf mode bd e) (pooledOf mode bd e) (pooledOf mode bd e) = true := by
+  unfold rewardsAccountedOK paidOf pooledOf
+  cases mode <;> simp
+
 /-- `rewards_per_block`, one block: it creates nothing outside a period, nothing on a
     non-distribution block, at most ⌊alloc/len⌋ in the period's first block, at most
     mod·⌊alloc/len⌋ on a later distribution block (the shares carried over since the previous
